@@ -138,6 +138,13 @@ pub fn gen_c02(rng: &mut Rng, n: usize, out: &mut Vec<String>) {
         if i % 100 == 7 {
             crate::ops_feat::gen_predefined_name_cases(rng, out);
         }
+        if i % 50 == 11 {
+            // valid corner programs (leading white space, comments between keyword and name, nested calls), every
+            // handler at every identifier, at 0:0 and behind every `(` and `,`
+            let mut tmp = vec![];
+            crate::ops_feat::gen_corner_docs(rng, i / 50, &mut tmp);
+            out.extend(tmp.into_iter().filter(|l| !l.starts_with("SPEC") && !l.starts_with("JUDGE")));
+        }
         if i % 8 == 5 {
             // a valid program with one violation of one SPL rule injected (the diagnostics of every rule, with their
             // ranges, are built, collected and published), opened and then edited
